@@ -184,16 +184,17 @@ def run_tlc(module, cfg_text, files, workers=1, timeout=3600, extra=(), heap="8g
 T1_CFG = "SPECIFICATION Spec\nINVARIANT Accepted\nCHECK_DEADLOCK FALSE\n"
 
 
-def validate_t1(groups_path, tcase, obs_paths, shards=8, timeout=3600):
-    """TraceT1 on the concatenated observations, sharded over several TLC processes.
-    returns (divergences, totals)"""
-    lines = []
-    for p in obs_paths:
-        with open(p) as f:
-            lines.extend(f.readlines())
+def validate_t1(groups_path, tcase, obs_paths, shards=8, timeout=3600, module="TraceT1", obsname="obs.ndjson", lines=None, min_chunk=200):
+    """TraceT1 (or another trace module of the same shape) on the concatenated observations, sharded over
+    several TLC processes.  returns (divergences, totals)"""
+    if lines is None:
+        lines = []
+        for p in obs_paths:
+            with open(p) as f:
+                lines.extend(f.readlines())
     if not lines:
         raise Inconclusive("no observations")
-    shards = max(1, min(shards, len(lines) // 200 or 1))
+    shards = max(1, min(shards, len(lines) // min_chunk or 1))
     chunk = (len(lines) + shards - 1) // shards
     tc = json.dumps(tcase)
     jobs = []
@@ -203,7 +204,7 @@ def validate_t1(groups_path, tcase, obs_paths, shards=8, timeout=3600):
             jobs.append("".join(part))
 
     def one(txt):
-        return run_tlc("TraceT1", T1_CFG, {"groups.ndjson": ("path", groups_path), "tcase.json": ("text", tc), "obs.ndjson": ("text", txt)},
+        return run_tlc(module, T1_CFG, {"groups.ndjson": ("path", groups_path), "tcase.json": ("text", tc), obsname: ("text", txt)},
                        workers=1, timeout=timeout, heap="6g")
     results = parallel(one, jobs, workers=len(jobs))
     div, n, states, trans = [], 0, 0, 0
